@@ -229,6 +229,30 @@ pub fn run_blob_opts<B: Backend>(acc: &mut Acc, c: &BlobCase, filter: Option<&Mu
             );
         }
     }
+    // text-level extensions of the serialised blob: one more base64 character (a dangling sextet
+    // carries no byte), padding, an extra section
+    if !relabel_only {
+        let mut exts: Vec<String> = crate::props::c02::ALPHABET.chars().map(|ch| ch.to_string()).collect();
+        exts.extend([".".to_string(), "=".to_string(), "==".to_string(), " ".to_string(), ".AAAA".to_string(), "AA".to_string(), "AAA".to_string(), "AAAA".to_string()]);
+        if expensive && acc.tier == Tier::Quick {
+            // RSA-4096 private operation per accepted parse: the last character of the text and a few others
+            let last = text.chars().last().map(|c| c.to_string()).unwrap_or_default();
+            let fourth_last = text.chars().rev().nth(3).map(|c| c.to_string()).unwrap_or_default();
+            exts = vec![last, fourth_last, "A".into(), "_".into(), ".".into(), "=".into()];
+        }
+        for (ei, ext) in exts.iter().enumerate() {
+            let id = MutId { class: "text-extension".into(), pos: ei as u32, arg: 0 };
+            if !want(&id) {
+                continue;
+            }
+            acc.eval();
+            acc.class("mutant:text-extension");
+            acc.nt(hash_of(&(c, &id)));
+            if unwrap_any(&format!("{text}{ext}")).is_ok() {
+                acc.fail(Fail::new(format!("C06/{name}/{kn}/{ks}/text-extension/accepted"), format!("the serialised blob followed by {ext:?} unwrapped")), rcase(&id));
+            }
+        }
+    }
     // other wrapping key / password / recipient
     let mut others: Vec<(MutId, Result<Vec<u8>, PasetoError>)> = Vec::new();
     let mk = |class: &str, pos: usize| MutId { class: class.into(), pos: pos as u32, arg: 0 };
